@@ -45,6 +45,16 @@ Definition expected_shared : list string := [
   "fox.iTree.ctx"
 ].
 
+(* 4. expected_flag_sites — what the bool fields of Router / Txn / iTree are initialised with in every
+      composite literal.  Txn.write decides whether Commit/Abort touch the writer lock; it is never
+      assigned (checked: it is a slot), so these sites are the only places where it gets a value:
+      txnWith passes its own `write` argument (and has locked under that same guard), a Snapshot is
+      read-only.  A new site, or a snapshot that inherits `write`, re-opens the obligation. *)
+Definition expected_flag_sites : list string := [
+  "fox.Txn.write := default false in Txn.Snapshot";
+  "fox.Txn.write := slot write in Router.txnWith"
+].
+
 Definition expected_shapes : list (string * (nat * nat)) := [
   ("Router.MustHandle", (0, 0));
   ("Router.Handle", (0, 0));
@@ -105,6 +115,32 @@ Fixpoint shapes_eqb (a b : list (string * (nat * nat))) : bool :=
 Definition sync_inventory_b : bool := strs_eqb sync_inventory expected_sync_inventory.
 Definition shared_b : bool := strs_eqb (map fname shared_now) expected_shared.
 Definition shapes_b : bool := shapes_eqb shape_table expected_shapes.
+Definition flag_sites_b : bool := strs_eqb flag_sites expected_flag_sites.
+
+(* lock discipline, checked on every leaf site of the graph: Router.mu is acquired only in txnWith under
+   the guard write = true, and released only in Txn.Commit / Txn.Abort under the guard recv.write = true *)
+Definition has_lit (gd : guard) (i : nat) (b : bool) : bool :=
+  existsb (fun l => Nat.eqb (fst l) i && Bool.eqb (snd l) b) gd.
+
+Definition site_ok (fid : N) (f : fn) : bool :=
+  forallb (fun l =>
+    match l_leaf l with
+    | Acquire k => negb (N.eqb k lock_Router_mu)
+                   || (N.eqb fid f_Router_txnWith && has_lit (l_guard l) 0 true)
+    | Release k => negb (N.eqb k lock_Router_mu)
+                   || ((N.eqb fid f_Txn_Commit || N.eqb fid f_Txn_Abort) && has_lit (l_guard l) 0 true)
+    | _ => true
+    end) (f_leaves f).
+
+Fixpoint disc_from (i : N) (g : Graph.graph) : bool :=
+  match g with
+  | [] => true
+  | f :: r => site_ok i f && disc_from (N.succ i) r
+  end.
+
+Definition lock_discipline_b : bool :=
+  disc_from 0%N graph
+  && match slots_of f_Router_txnWith with s :: _ => String.eqb s "write" | [] => false end.
 
 (* field ids mentioned in the graph exist in the field table *)
 Definition fields_wf_b : bool :=
